@@ -266,36 +266,12 @@ func childMain() {
 		writeResult(sp.Dir, res)
 		os.Exit(0)
 	}
-	if sp.Scale {
-		childScale(e, &sp, res)
-		res.Done = true
-		writeResult(sp.Dir, res)
-		os.Exit(0)
-	}
 	j, err := openJournal(filepath.Join(sp.Dir, "journal"))
 	if err != nil {
 		res.SetupErr = err.Error()
 		writeResult(sp.Dir, res)
 		os.Exit(0)
 	}
-	ev := &env{seed: sp.Seed, j: j, res: res, cur: -1}
-	r, err := e.open(sp.State, ev)
-	if err != nil {
-		res.SetupErr = err.Error()
-		writeResult(sp.Dir, res)
-		os.Exit(0)
-	}
-
-	var explicit [][]byte
-	for _, h := range sp.Inputs {
-		x, _ := hex.DecodeString(h)
-		explicit = append(explicit, x)
-	}
-	from, to := sp.From, sp.To
-	if explicit != nil {
-		from, to = 0, len(explicit)
-	}
-
 	// hang watchdog: a candidate only (confirmed by reproduction in a fresh process)
 	var inflight atomic.Int64 // index currently being processed
 	var since atomic.Int64    // unix nanos when it started
@@ -318,6 +294,30 @@ func childMain() {
 			}
 		}
 	}()
+
+	if sp.Scale {
+		childScale(e, &sp, res, j, func(k int) { since.Store(time.Now().UnixNano()); inflight.Store(int64(k)) }, func() { inflight.Store(-1) })
+		res.Done = true
+		writeResult(sp.Dir, res)
+		os.Exit(0)
+	}
+	ev := &env{seed: sp.Seed, j: j, res: res, cur: -1}
+	r, err := e.open(sp.State, ev)
+	if err != nil {
+		res.SetupErr = err.Error()
+		writeResult(sp.Dir, res)
+		os.Exit(0)
+	}
+
+	var explicit [][]byte
+	for _, h := range sp.Inputs {
+		x, _ := hex.DecodeString(h)
+		explicit = append(explicit, x)
+	}
+	from, to := sp.From, sp.To
+	if explicit != nil {
+		from, to = 0, len(explicit)
+	}
 
 	nt := map[uint64]struct{}{}
 	dist := map[string]map[string]struct{}{}
@@ -418,17 +418,22 @@ func childMain() {
 	os.Exit(0)
 }
 
-// childScale runs the scaling probe of one entry point (all its states).
-func childScale(e *entry, sp *spec, res *result) {
-	states := e.states
-	if len(states) == 0 {
-		states = []string{""}
-	}
+// scaleStates lists the states that take part in the scaling probe of an entry point.
+func scaleStates(e *entry) []string {
 	if e.scaleIn != nil {
-		states = e.scaleIn
+		return e.scaleIn
 	}
+	if len(e.states) == 0 {
+		return []string{""}
+	}
+	return e.states
+}
+
+// childScale runs the scaling probe of one entry point (all its states).
+func childScale(e *entry, sp *spec, res *result, j *journal, begin func(int), end func()) {
+	states := scaleStates(e)
 	sizes := []int{512, 1024, 2048}
-	for _, st := range states {
+	for si, st := range states {
 		ev := &env{seed: sp.Seed, res: res, cur: -1}
 		r0, err := e.open(st, ev)
 		if err != nil {
@@ -458,11 +463,14 @@ func childScale(e *entry, sp *spec, res *result) {
 				// CPU time of this process, not wall time: other processes competing for the
 				// cores do not inflate it; no collection runs inside the timed section
 				runtime.GC()
+				j.write(si*10000+sizes[k], false, in) // a hang or process death is attributed to this sample
+				begin(si*10000 + sizes[k])
 				gcp := debug.SetGCPercent(-1)
 				t0 := cpuNow()
 				o, p := safeFeed(r, in)
 				dt := cpuNow() - t0
 				debug.SetGCPercent(gcp)
+				end()
 				if p == nil {
 					p = o.pan
 				}
